@@ -408,8 +408,9 @@ def rule_c11_worker(prog: Program, col: Collector) -> None:
     if len(rets) != 1:
         raise AnalysisError("possible_action_sequences: expected a single return")
     rv = rets[0].value
-    comb = [s for s in subterms(rv) if s[0] == "call" and s[1][0] == "global" and s[1][1].startswith("itertools.") and
-            s[1][1].rsplit(".", 1)[-1] in ("combinations", "permutations", "product", "combinations_with_replacement")]
+    from .common import distinct
+    comb = distinct(s for s in subterms(rv) if s[0] == "call" and s[1][0] == "global" and s[1][1].startswith("itertools.") and
+                    s[1][1].rsplit(".", 1)[-1] in ("combinations", "permutations", "product", "combinations_with_replacement"))
     col.check(len(comb) == 1 and comb[0][1][1] == "itertools.combinations", pref.where(), pref.short,
               f"subsets are generated by itertools.combinations ({[c[1][1] for c in comb]})", construct="enum-combinations",
               necessity="permutations / product / with_replacement enumerate a set several times or with repeats")
